@@ -31,7 +31,7 @@ fn pre_mo(n: &MarkedYamlOwned, out: &mut Vec<Value>) {
 
 fn rec(t: &str, r: &Run, be: &str, marked: Vec<Value>) -> Value {
     json!({"k": "POS", "t": chars(t), "be": be,
-        "evs": r.evs.iter().map(|e| json!({"k": e.k, "a": e.a, "b": e.b, "v": chars(&e.v), "style": e.style})).collect::<Vec<_>>(),
+        "evs": r.evs.iter().map(|e| json!({"k": e.k, "a": e.a, "b": e.b, "v": chars(&e.v), "style": e.style, "aid": e.aid})).collect::<Vec<_>>(),
         "err": r.err.iter().map(|e| json!({"at": e.at, "words": e.display.split_whitespace().collect::<Vec<_>>()})).collect::<Vec<_>>(),
         "marked": marked})
 }
@@ -57,17 +57,14 @@ pub fn run(a: &Args) {
         }
         // marked loads (only when every node event created exactly one node: no alias, no duplicate key)
         let mut marked: Vec<Value> = vec![];
-        if rs.err.is_none() && !rs.evs.iter().any(|e| e.k == "Alias") {
-            let nodes = rs.evs.iter().filter(|e| matches!(e.k, "Scalar" | "SequenceStart" | "MappingStart")).count();
+        if rs.err.is_none() && rs.evs.len() < 400 {
             let lm = std::panic::catch_unwind(|| MarkedYaml::load_from_str(t));
             let lo = std::panic::catch_unwind(|| MarkedYamlOwned::load_from_str(t));
             if let (Ok(Ok(dm)), Ok(Ok(dmo))) = (lm, lo) {
                 let (mut a1, mut a2) = (vec![], vec![]);
                 dm.iter().for_each(|d| pre_m(d, &mut a1));
                 dmo.iter().for_each(|d| pre_mo(d, &mut a2));
-                // empty documents load as a BadValue node carrying the DocumentEnd span: not a node event
-                let empties = 0;
-                if a1.len() == nodes + empties {
+                {
                     marked.push(json!(a1));
                     nmarked += 1;
                     if a2 != *marked[0].as_array().unwrap() {
